@@ -769,7 +769,7 @@ def run_chunk(spec):
     observe.quiet_logs()
     res = Result()
     tier, ci = spec["tier"], spec["chunk"]
-    wd = Watchdog(res, 120.0)
+    wd = Watchdog(res, 400.0)
     n_api = 25 if tier == "quick" else 400
     n_disc = 150 if tier == "quick" else 3000
     only = spec.get("only_case")
